@@ -104,3 +104,17 @@ check('C15',
       'unchanged prices (value and window values unchanged) and with changed prices (window values unchanged, other bounds free).',
       TB + 'A date window means all steps whose time point is not after the date (the behaviour of the unchanged tree).',
       'Coq proof + differential correspondence + implementation oracle (re-optimisation)', 'DESIGN.md 5 C15')
+check('C14',
+      'Theorems (any number of intervals of any size): the interval problems form a direct sum, the concatenation of interval optima is '
+      'optimal for it and its value is the sum of the interval optima; the whole is feasible iff every interval is; the re-based '
+      'mapping points into its own variable block and to steps of the original grid; any point passing the primal check of the '
+      'unsplit problem is bounded by a certified unsplit optimum. Per instance on the implementation: number and step ranges of the '
+      'intervals from the calendar, mapping steps per interval, dispatch rows equal to the unsplit problem, split value = sum of '
+      'independently optimised intervals, the concatenated solution mapped onto the unsplit variables respects its limits, split = '
+      'unsplit for uncoupled portfolios and split <= unsplit for coupling through takes / storages with start = end level, the latter '
+      'certified in Coq (check_opt for the unsplit optimum, check_primal_eps for the concatenated point). Partial last intervals, '
+      'day splits with main unit d and discounting, DST grids, twin assets meeting at a split boundary are generated.',
+      TB + 'That the unsplit problem of an uncoupled portfolio is this direct sum up to variable order is checked structurally per '
+      'instance, not proved. Order books, scaled and structured assets are excluded from the comparison with the unsplit problem '
+      '(their variables are duplicated per interval); coarse-frequency and periodic assets are not combined with splitting.',
+      'Coq proof (direct sum) + per-instance certificates in Coq + implementation oracle', 'DESIGN.md 5 C14')
